@@ -77,6 +77,14 @@ T = {
  "R3E-m2": ("C10", "world-level dynamic destroy drops the row in place, then destroys and forgets", "a component Drop panic (or the overflow panic) inside World::destroy(EntityAny/EntityDirectAny): entity stays registered with dropped components"),
  "R3E-m3": ("C19", "version.rs wrapping_version arms saturate at u32::MAX", "wrapping_version + crossing the 2^32 boundary: handles reissued, stale handles resolve"),
  "R3E-m4": ("C19", "entity.rs from_any: panic replaced by debug_assert!", "release build: Entity::<B>::from_any(handle of A) no longer panics"),
+ "R4B-m1": ("C12", "macros generate/world.rs with_capacity: every archetype gets the first archetype's capacity", ">= 2 archetypes and a non-first archetype requesting more capacity than the first"),
+ "R4B-m2": ("C15", "macros generate/world.rs SelectArchetype::archetype_id() returns the declaration position (`self as ArchetypeId`)", "an explicit archetype id that differs from the archetype's position"),
+ "R4B-m3": ("C09", "macros generate/world.rs World::to_direct(EntityDirectAny) returns Some(entity) for any declared id", "a stale or forged EntityDirectAny through the world-level to_direct"),
+ "R4B-m4": ("C17", "macros generate/world.rs world-level iter_destroyed iterates the created logs", "events + created and destroyed sets since the last clear differ"),
+ "R4D-m1": ("C09", "macros generate/world.rs Archetype::to_direct(EntityDirectAny) only checks the id byte", "archetype-level to_direct with a stale EntityDirectAny"),
+ "R4D-m2": ("C07", "iter.rs From<EcsStep> for EcsStepDestroy always returns Continue", "an ecs_iter_destroy! closure returning EcsStep::Break (not EcsStepDestroy)"),
+ "R4D-m3": ("C09", "storage.rs BorrowN::index() returns the slot index", "borrow(k).index() or an EntityDirect parameter of ecs_find_borrow! after churn (slot != dense)"),
+ "R4D-m4": ("C09", "macros generate/world.rs World::destroy(EntityDirectAny) returns Some(()) unconditionally", "World::destroy with a stale EntityDirectAny: reports success"),
 }
 
 
